@@ -168,6 +168,7 @@ func runC19(seed int64, tier string, outDir string) *result {
 	header := "From IpfsLog Require Import Model.Order Model.Check19.\nOpen Scope Z_scope.\n"
 	pairList := &caseList{name: "pair_cases", typ: "pair_case", checker: "mismatches_pairs"}
 	sortList := &caseList{name: "sort_cases", typ: "sort_case", checker: "mismatches_sorts"}
+	customList := &caseList{name: "custom_pair_cases", typ: "pair_case", checker: "mismatches_pairs_custom"}
 	nPairs, nCustomPairs := 0, 0
 	distinctClass := map[string]struct{}{}
 	pairs := func(pool []skey, inRange bool, model bool) {
@@ -186,6 +187,8 @@ func runC19(seed int64, tier string, outDir string) *result {
 						fmt.Sprintf("pair a=(%d,%s,%s) b=(%d,%s,%s)", a.Time, a.ID, a.Hash, b.Time, b.ID, b.Hash))
 					nPairs++
 				} else {
+					customList.add(fmt.Sprintf("Build_pair_case %s %s %s", coqKey(a), coqKey(b), coqList(obs)),
+						fmt.Sprintf("custom clock type: pair a=(%d,%s,%s) b=(%d,%s,%s)", a.Time, a.ID, a.Hash, b.Time, b.ID, b.Hash))
 					nCustomPairs++
 				}
 				cls := fmt.Sprintf("%d/%d/%d", sgn(a.Time-b.Time)*boolInt(inRange), sgn(strings.Compare(a.ID, b.ID)), sgn(strings.Compare(a.Hash, b.Hash)))
@@ -381,8 +384,8 @@ func runC19(seed int64, tier string, outDir string) *result {
 		sortList.add(fmt.Sprintf("Build_sort_case %s %s %s %s", coqNat(fi), coqBool(rev), coqList(inStr), coqList(outIdx)), lab)
 		nSorts++
 	}
-	res.CaseFiles = writeShards(outDir, "C19", header, []*caseList{pairList, sortList}, 250)
-	res.ModelCases = nPairs + nSorts
+	res.CaseFiles = writeShards(outDir, "C19", header, []*caseList{pairList, sortList, customList}, 250)
+	res.ModelCases = nPairs + nSorts + len(customList.items)
 	res.Evaluations = nPairs + nCustomPairs + nTriples + nSorts
 	res.Distinct = len(distinctClass)
 	res.Rule = "pairs: full square of a pool of sort keys over {times} x {ids} x 2 random hashes (in-range times) plus a pool with negative/extreme times; a pair class is (sign of time diff, sign of id diff, sign of hash diff), distinct_nontrivial counts the classes hit; triples: random; sorts: random lists of 0..20 pool elements (with ties) under all 8 comparator variants, both directions, plus lists of 21..60 distinct entries under the hash ordering"
